@@ -12,7 +12,7 @@ package majority
 //@ pred mjAccepts(l model.BiasListener, x model.MethodParameters, id string) = typeis(x, model.WeightType) && id in x.(model.WeightType).Weights
 
 //@ func (*MajorityBiasListener).OnCriteriaRemoved
-//@   property C07 C15 C11
+//@   property C07 C15 C11 C01
 //@   refines model.BiasListener.OnCriteriaRemoved with validParams=mjValid, coversId=mjCovers
 //@   ensures [rest_kept] result.(MajorityHeuristicParams).CurrentChoice == params.(MajorityHeuristicParams).CurrentChoice
 //@             && result.(MajorityHeuristicParams).RandomSeed == params.(MajorityHeuristicParams).RandomSeed
@@ -22,13 +22,13 @@ package majority
 //@             result.(MajorityHeuristicParams).Weights[(*leftCriteria)[k].Id] == params.(MajorityHeuristicParams).Weights[(*leftCriteria)[k].Id]
 
 //@ func (*MajorityBiasListener).OnCriterionAdded
-//@   property C07 C18 C11
+//@   property C07 C18 C11 C01
 //@   fnparam generator ensures 0.0 <= result && result < 1.0
 //@   refines model.BiasListener.OnCriterionAdded with validParams=mjValid, coversId=mjCovers, accepts=mjAccepts, acceptsAny=mjAcceptsAny
 //@   ensures [weight_is_fraction_of_reference] model.fractionOf(result.(model.WeightType).Weights[criterion.Id], params.(MajorityHeuristicParams).Weights[referenceCriterion.Id])
 
 //@ func (*MajorityBiasListener).Merge
-//@   property C07 C18 C11
+//@   property C07 C18 C11 C01
 //@   refines model.BiasListener.Merge with validParams=mjValid, coversId=mjCovers, accepts=mjAccepts, acceptsAny=mjAcceptsAny
 //@   ensures [rest_kept] result.(MajorityHeuristicParams).CurrentChoice == params.(MajorityHeuristicParams).CurrentChoice
 //@             && result.(MajorityHeuristicParams).RandomSeed == params.(MajorityHeuristicParams).RandomSeed
@@ -45,7 +45,7 @@ package majority
 
 // ---- the heuristic itself (C11)
 
-//@ pred better(a model.AlternativeWithCriteria, b model.AlternativeWithCriteria, c model.Criterion) = model.signed(a, c) - model.signed(b, c) > eps
+//@ pred better(a model.AlternativeWithCriteria, b model.AlternativeWithCriteria, c model.Criterion) = model.signed(a, c) - model.signed(b, c) > 0.000001
 //@ spec score(cs []model.WeightedCriterion, a model.AlternativeWithCriteria, b model.AlternativeWithCriteria, n int) real =
 //@      n <= 0 ? 0.0 : score(cs, a, b, n - 1) + (better(a, b, cs[n - 1].Criterion) ? cs[n - 1].Weight : 0.0)
 
@@ -93,11 +93,11 @@ package majority
 //@ func (*Majority).takeBetter
 //@   property C11 C01 C09
 //@   fnparam generator ensures 0.0 <= result && result < 1.0
-//@   ensures [winner_score] result3 == ((abs(s1 - s2) <= eps || s2 < s1) ? s1 : s2)
-//@   ensures [clear_win_of_current] !(abs(s1 - s2) <= eps) && s2 < s1 ==> result2 == current && result1 == sameBuffer
+//@   ensures [winner_score] result3 == ((abs(s1 - s2) <= 0.000001 || s2 < s1) ? s1 : s2)
+//@   ensures [clear_win_of_current] !(abs(s1 - s2) <= 0.000001) && s2 < s1 ==> result2 == current && result1 == sameBuffer
 //@             && len(result0) == len(worseThanCurrent) + 1 && len(result0[len(worseThanCurrent)]) == 1
 //@             && isRecord(result0[len(worseThanCurrent)][0], another, s2, current.Id, s1)
-//@   ensures [clear_win_of_newcomer] !(abs(s1 - s2) <= eps) && !(s2 < s1) ==> result2 == another && len(result1) == 0
+//@   ensures [clear_win_of_newcomer] !(abs(s1 - s2) <= 0.000001) && !(s2 < s1) ==> result2 == another && len(result1) == 0
 //@             && len(result0) == len(worseThanCurrent) + 1 && len(result0[len(worseThanCurrent)]) == len(sameBuffer) + 1
 //@             && isRecord(result0[len(worseThanCurrent)][len(sameBuffer)], current, s1, another.Id, s2)
 
